@@ -9,7 +9,10 @@ CONFIG = {'gen': ['Md4Kernel'],
          'ill-formed passwords (tie only: outside the statement); (d) DCC and DCC2 (both entry points, from password and from NT hash, '
          "raw/hex/hashcat forms) with user names from the four pools incl. empty, 'Dom#A:in\\' prefixes, rounds in "
          '{1,2,3,7,10,100,1000,10240} and <= 0 (tie only); (e) the Lean DES primitive against crypto/des (random, parity variants, '
-         'single-bit keys/blocks). distinct = distinct input line; non-trivial = implementation output is a non-empty value Call families whose arguments coincide when written one after the other (rounds/user digits moved across the boundary, password/user split elsewhere), run in sequence in one process: every call must be answered for its own arguments (result caches with ambiguous keys).',
+         'single-bit keys/blocks). distinct = distinct input line; non-trivial = implementation output is a non-empty value Call families '
+         'whose arguments coincide when written one after the other (rounds/user digits moved across the boundary, password/user split '
+         'elsewhere), run in sequence in one process: every call must be answered for its own arguments (result caches with ambiguous '
+         'keys).',
  'assumptions': ['Go language/stdlib semantics as modelled: []rune(string) (ill-formed byte -> U+FFFD, one byte consumed), '
                  'unicode/utf16.Encode, strings.ToUpper/ToLower (ASCII fast path modelled concretely; the Unicode case tables are a '
                  'parameter of the model and the harness passes the stdlib result), hex.EncodeToString, fmt %s %d, copy/append, uint64 '
